@@ -236,3 +236,15 @@ def run(ctx, rep):
                         rep.ob('R19.d', ctx.user_fn_of(df), short(c.fn), True, c.where(), 'opened for truncation only (set_len; no data-writing call in the function)')
                         continue
                 rep.ob('R19.d', ctx.user_fn_of(df), short(c.fn), ok, c.where(), 'in %s' % mod if ok else 'a file is written from module `%s`, which is not one of the storage modules through which (encrypted) data reaches disk' % mod)
+
+    # ------------------------------------------------------------ R19.f decrypt accepts everything encrypt produces
+    rep.rule('R19.f', 'decrypt refuses only what encrypt cannot have produced: the one length test of Aes256GcmEncryptor::decrypt is `len < 12` (the nonce); encrypt of an empty payload is 12 + 16 bytes and must still decrypt (a stricter test makes one stored message unreadable and every poll over it fail)', floor=1, analysis='A10 comparison forms')
+    AES_DEC = '<iggy::utils::crypto::Aes256GcmEncryptor as iggy::utils::crypto::Encryptor>::decrypt'
+    if not ctx.has(AES_DEC):
+        rep.anchor_lost('R19.f', AES_DEC)
+    else:
+        got = comparison_forms(ctx, AES_DEC)
+        allf = sorted(f for v in got.values() for f in v)
+        ok = allf == ['([T]::len(data) < 12)']
+        rep.ob('R19.f', AES_DEC, 'length tests', ok, None, ' '.join(allf) if ok else 'decrypt now tests %s (confirmed: only `([T]::len(data) < 12)`)' % allf)
+
